@@ -12,8 +12,9 @@ REQ = ["NewEmpty", "Construct", "Fill", "FillN", "FindBin"]
 def run(tier, seed):
     ctx = CheckContext("C02", tier, seed)
     ctx.invariants = ["CellContents", "MissedAccounting", "ShapesMatch"]
-    cfg = "MC_HistND_c02q" if tier == "quick" else "MC_HistND_c02t"
-    _res, g = ctx.model_check(cfg, required_actions=REQ)
+    if tier == "thorough":
+        ctx.model_check("MC_HistND_c02t", dump=False)          # deep exhaustive run of the invariants
+    _res, g = ctx.model_check("MC_HistND_c02q", required_actions=REQ)
     combos = [("dyadic", "int", 0), ("ulp", "half", 1), ("decimal", "npint", 2), ("huge", "int", 1), ("neg", "float1", 0), ("tiny", "half", 2)]
     if tier == "thorough":
         combos += [("offset", "quarter32", 0), ("ulp", "int", 2), ("tiny", "int", 0)]
@@ -28,8 +29,7 @@ def run(tier, seed):
 
 def fill_part(ctx, tier):
     """ND part of C03: fill / fill_n / find_bin histories."""
-    cfg = "MC_HistND_c02q" if tier == "quick" else "MC_HistND_c02t"
-    _res, g = ctx.model_check(cfg, required_actions=REQ)
+    _res, g = ctx.model_check("MC_HistND_c02q", required_actions=REQ)
     combos = [("dyadic", "int", 0), ("ulp", "half", 1)]
     if tier == "thorough":
         combos += [("decimal", "npint", 0), ("huge", "int", 1)]
